@@ -116,6 +116,13 @@ CLAIMED = {
             'object is a violation.',
             'Observation uses only public queries (nodes, edges, feasible, final, next choices, options, connection sets, '
             'stored values).'),
+    'C12': ('property-based testing: generated connector settings (incl. degenerate and pattern-shaped) x candidate time '
+            'limits x cache histories {cold, warm same process, warm written by a child process with another hash seed}; '
+            'oracle = selection succeeds, the selected coding passes the C10 encoder oracle (R-CONN), cold/warm/'
+            'cross-process differential, and cache-key separation for mutated settings whose reference matrix maps differ',
+            'Generated-input and history search; the selected coding is judged by the same reference model as C10.',
+            'Only the installed numeric stack can be exercised (numpy 1.26 / pandas 3.0 / scipy 1.17); sub-default time '
+            'limits run under load, the oracle judges whatever coding is returned, never which one.'),
 }
 
 NOT_YET = 'check not built yet in this session (see DESIGN.md 6 for the plan); will be claimed once it is registered'
